@@ -122,15 +122,16 @@ func Decode(reader io.Reader, values ...interface{}) (err error) {
 				return errors.WithMessage(err, "reading length of binary data")
 			}
 
-			// Nothing to be decoded when length is zero.
-			if length == 0 {
-				break
-			}
-
+			// A zero-length encoding is handed to the unmarshaler like any
+			// other: whether it denotes a valid value is for the type to
+			// decide. Skipping the unmarshaler would leave a never
+			// initialised value behind that is then used as a decoded one.
 			var data ByteSlice = make([]byte, length)
-			err = data.Decode(reader)
-			if err != nil {
-				return errors.WithMessage(err, "reading binary data")
+			if length > 0 {
+				err = data.Decode(reader)
+				if err != nil {
+					return errors.WithMessage(err, "reading binary data")
+				}
 			}
 
 			err = v.UnmarshalBinary(data)
